@@ -21,6 +21,28 @@ type op struct {
 	DstOp bool // takes an explicit AEAD dst
 	Pk    int  // number of []byte arguments that can be sub-slices of one caller buffer (memCase.Pack numbers them)
 	PkArg []string
+	// Sized reports whether memCase.Len is the length of an argument of the call for this algorithm and path without an upper bound
+	// (nil: always). False where the length is fixed by the algorithm (digests) or bounded by the key (RSA plaintexts).
+	Sized func(alg, mode string) bool
+	Aad   bool // takes associated data / a label of any length (memCase.AadLen)
+}
+
+func (o op) sized(alg, mode string) bool { return o.Sized == nil || o.Sized(alg, mode) }
+
+func never(string, string) bool { return false }
+
+// sigSized: the signature functions take a digest of the algorithm's length, except EdDSA (the message itself) and the path that hands in a digest of the wrong size.
+func sigSized(alg, mode string) bool {
+	s, _ := refcrypto.Sig(alg)
+	return s.DigestLen() == 0 || mode == "baddigestsize"
+}
+
+func parseKeySized(alg, _ string) bool {
+	switch alg {
+	case "raw16", "raw32", "jwk-ec", "pem-pkcs8", "pem-pkix":
+		return false
+	}
+	return true
 }
 
 func fixed(m []string) func(string) []string { return func(string) []string { return m } }
@@ -46,23 +68,23 @@ var (
 // crypto/aescbcaead that takes a []byte (the aescbcaead constructors are exercised
 // through Seal/Open: the key they are given is one of the checked arguments).
 var ops = []op{
-	{Name: "crypto.EncryptSymmetric", Algs: symAlgs, Modes: symEncModes, Run: func(k *call) { k.symEnc("sym") }, PkArg: symEncArgs},
-	{Name: "crypto.Encrypt", Algs: symAlgs, Modes: symEncModes, Run: func(k *call) { k.symEnc("generic") }, PkArg: symEncArgs},
-	{Name: "crypto.DecryptSymmetric", Algs: symAlgs, Modes: symDecModes, Run: func(k *call) { k.symDec("sym") }, PkArg: symDecArgs},
-	{Name: "crypto.Decrypt", Algs: symAlgs, Modes: symDecModes, Run: func(k *call) { k.symDec("generic") }, PkArg: symDecArgs},
-	{Name: "crypto.EncryptPublicKey", Algs: rsaAlgs, Modes: fixed(rsaEncModes), Run: func(k *call) { k.rsaEnc("pub") }, PkArg: rsaEncArgs},
-	{Name: "crypto.Encrypt(rsa)", Algs: rsaAlgs, Modes: fixed(rsaEncModes), Run: func(k *call) { k.rsaEnc("generic") }, PkArg: rsaEncArgs},
-	{Name: "crypto.DecryptPrivateKey", Algs: rsaAlgs, Modes: fixed(rsaDecModes), Run: func(k *call) { k.rsaDec("pub") }, Heavy: true, PkArg: rsaDecArgs},
-	{Name: "crypto.Decrypt(rsa)", Algs: rsaAlgs, Modes: fixed(rsaDecModes), Run: func(k *call) { k.rsaDec("generic") }, Heavy: true, PkArg: rsaDecArgs},
-	{Name: "crypto.SignPrivateKey", Algs: sigAlgs, Modes: fixed(signModes), Run: func(k *call) { k.sign() }, Heavy: true},
-	{Name: "crypto.VerifyPublicKey", Algs: sigAlgs, Modes: fixed(verifyModes), Run: func(k *call) { k.verify() }, Heavy: true, PkArg: []string{"digest", "signature"}},
-	{Name: "crypto.ParseKey", Algs: parseKeyFormats, Modes: fixed(parseKeyModes), Run: func(k *call) { k.parseKey() }},
+	{Name: "crypto.EncryptSymmetric", Algs: symAlgs, Modes: symEncModes, Run: func(k *call) { k.symEnc("sym") }, PkArg: symEncArgs, Aad: true},
+	{Name: "crypto.Encrypt", Algs: symAlgs, Modes: symEncModes, Run: func(k *call) { k.symEnc("generic") }, PkArg: symEncArgs, Aad: true},
+	{Name: "crypto.DecryptSymmetric", Algs: symAlgs, Modes: symDecModes, Run: func(k *call) { k.symDec("sym") }, PkArg: symDecArgs, Aad: true},
+	{Name: "crypto.Decrypt", Algs: symAlgs, Modes: symDecModes, Run: func(k *call) { k.symDec("generic") }, PkArg: symDecArgs, Aad: true},
+	{Name: "crypto.EncryptPublicKey", Algs: rsaAlgs, Modes: fixed(rsaEncModes), Run: func(k *call) { k.rsaEnc("pub") }, PkArg: rsaEncArgs, Sized: never, Aad: true},
+	{Name: "crypto.Encrypt(rsa)", Algs: rsaAlgs, Modes: fixed(rsaEncModes), Run: func(k *call) { k.rsaEnc("generic") }, PkArg: rsaEncArgs, Sized: never, Aad: true},
+	{Name: "crypto.DecryptPrivateKey", Algs: rsaAlgs, Modes: fixed(rsaDecModes), Run: func(k *call) { k.rsaDec("pub") }, Heavy: true, PkArg: rsaDecArgs, Sized: never, Aad: true},
+	{Name: "crypto.Decrypt(rsa)", Algs: rsaAlgs, Modes: fixed(rsaDecModes), Run: func(k *call) { k.rsaDec("generic") }, Heavy: true, PkArg: rsaDecArgs, Sized: never, Aad: true},
+	{Name: "crypto.SignPrivateKey", Algs: sigAlgs, Modes: fixed(signModes), Run: func(k *call) { k.sign() }, Heavy: true, Sized: sigSized},
+	{Name: "crypto.VerifyPublicKey", Algs: sigAlgs, Modes: fixed(verifyModes), Run: func(k *call) { k.verify() }, Heavy: true, PkArg: []string{"digest", "signature"}, Sized: func(alg, _ string) bool { return sigSized(alg, "") }},
+	{Name: "crypto.ParseKey", Algs: parseKeyFormats, Modes: fixed(parseKeyModes), Run: func(k *call) { k.parseKey() }, Sized: parseKeySized},
 	{Name: "aeskw.Wrap", Algs: kekAlgs, Modes: fixed(wrapModes), Run: func(k *call) { k.wrap() }},
 	{Name: "aeskw.Unwrap", Algs: kekAlgs, Modes: fixed(unwrapModes), Run: func(k *call) { k.unwrap() }},
 	{Name: "padding.PadPKCS7", Algs: padAlgs, Modes: fixed(padModes), Run: func(k *call) { k.pad() }},
 	{Name: "padding.UnpadPKCS7", Algs: padAlgs, Modes: fixed(unpadModes), Run: func(k *call) { k.unpad() }},
-	{Name: "aescbcaead.Seal", Algs: aeadAlgs, Modes: fixed(sealModes), Run: func(k *call) { k.seal() }, DstOp: true, PkArg: []string{"key", "plaintext", "nonce", "additionalData"}},
-	{Name: "aescbcaead.Open", Algs: aeadAlgs, Modes: fixed(openModes), Run: func(k *call) { k.open() }, DstOp: true, PkArg: []string{"key", "ciphertext", "nonce", "additionalData"}},
+	{Name: "aescbcaead.Seal", Algs: aeadAlgs, Modes: fixed(sealModes), Run: func(k *call) { k.seal() }, DstOp: true, PkArg: []string{"key", "plaintext", "nonce", "additionalData"}, Aad: true},
+	{Name: "aescbcaead.Open", Algs: aeadAlgs, Modes: fixed(openModes), Run: func(k *call) { k.open() }, DstOp: true, PkArg: []string{"key", "ciphertext", "nonce", "additionalData"}, Aad: true},
 }
 
 // the []byte arguments that memCase.Pack numbers, in declaration order
@@ -129,6 +151,20 @@ func runMem(c memCase) (string, caseStat, *arena) {
 	if k.pnc != nil {
 		st.classes = append(st.classes, "call.panicked")
 	}
+	if c.Dst != "" {
+		st.classes = append(st.classes, "dst."+c.Dst)
+	}
+	// the size class of the longest argument of the call (".with-spare": it is read-only and has spare capacity behind its length)
+	if n, spare := k.a.longest(); n >= 0 {
+		cl := "size." + sizeClass(n)
+		st.classes = append(st.classes, cl)
+		if n >= bigFrom {
+			st.classes = append(st.classes, "size.large")
+			if spare && k.reached {
+				st.classes = append(st.classes, "size.large.reached.with-spare", cl+".reached.with-spare")
+			}
+		}
+	}
 	for _, r := range k.results {
 		for _, n := range k.a.aliases(r) {
 			// informational: the result lives in the argument's memory (expected for UnpadPKCS7 and for an explicit dst)
@@ -173,7 +209,7 @@ func TestMemSweep(t *testing.T) {
 					for si, sp := range sweepSpares {
 						dsts := []string{""}
 						if o.DstOp {
-							dsts = []string{"nil", "sep", "inplace"}
+							dsts = dstForms
 						}
 						for _, d := range dsts {
 							idx++
@@ -197,18 +233,26 @@ func TestMemSweep(t *testing.T) {
 
 // drawCase draws one call of o: algorithm, path, lengths, spare capacities, dst form and the layout of the
 // arguments in the caller's memory.
-func drawCase(rt *rapid.T, o op) memCase {
+// big (0..8) is the weight, in eighths, of the large size classes (see size_test.go) among the message lengths.
+func drawCase(rt *rapid.T, o op, big int) memCase {
 	c := memCase{Op: o.Name, Alg: rapid.SampledFrom(o.Algs).Draw(rt, "alg")}
 	modes := o.Modes(c.Alg)
 	c.Mode = modes[0]
 	if rapid.Bool().Draw(rt, "failurePath") {
 		c.Mode = rapid.SampledFrom(modes).Draw(rt, "mode")
 	}
-	c.Len = rapid.OneOf(rapid.SampledFrom(sweepLens), rapid.IntRange(0, 200)).Draw(rt, "len")
-	c.AadLen = rapid.OneOf(rapid.Just(0), rapid.IntRange(0, 40)).Draw(rt, "aadLen")
+	if !o.sized(c.Alg, c.Mode) {
+		big = 0
+	}
+	c.Len = drawLen(rt, "len", big, rapid.OneOf(rapid.SampledFrom(sweepLens), rapid.IntRange(0, 200)))
+	aadBig := 0
+	if o.Aad && big > 0 {
+		aadBig = 1
+	}
+	c.AadLen = drawLen(rt, "aadLen", aadBig, rapid.OneOf(rapid.Just(0), rapid.IntRange(0, 40)))
 	c.Spare = rapid.SliceOfN(rapid.OneOf(rapid.IntRange(0, 64), rapid.SampledFrom([]int{0, 1, 15, 16, 17, 32, 64})), 1, 6).Draw(rt, "spare")
 	if o.DstOp {
-		c.Dst = rapid.SampledFrom([]string{"nil", "sep", "inplace"}).Draw(rt, "dst")
+		c.Dst = rapid.SampledFrom(dstForms).Draw(rt, "dst")
 		c.DstLen = rapid.IntRange(0, 20).Draw(rt, "dstLen")
 	}
 	c.NilEmpty = rapid.Bool().Draw(rt, "nilEmpty")
@@ -229,6 +273,10 @@ func drawCase(rt *rapid.T, o op) memCase {
 
 var capModes = []string{"end", "gap", "len"}
 
+// dstForms: how the caller of an AEAD passes dst: nil; a separate buffer with a few bytes of capacity (the result is reallocated unless it is tiny);
+// a separate buffer with room for the whole result; the message argument itself (x[:0]).
+var dstForms = []string{"nil", "sep", "room", "inplace"}
+
 func TestMemRapid(t *testing.T) {
 	sec := vk.Sec("MemRapid")
 	var light, heavy []op
@@ -245,7 +293,7 @@ func TestMemRapid(t *testing.T) {
 			pool = heavy
 		}
 		o := pool[rapid.IntRange(0, len(pool)-1).Draw(rt, "op")]
-		c := drawCase(rt, o)
+		c := drawCase(rt, o, 2)
 		msg, st := checkMem(c)
 		if msg != "" {
 			rt.Fatalf("C17 caller memory violated: %s\ncase: %s", msg, c)
